@@ -57,6 +57,8 @@ class Ctx(object):
         self.fn_apps = {}       # uninterpreted function applications (for axiom instantiation)
         self.trace = []         # human readable notes
         self.assumed = set()    # names of shim contracts / uninterpreted functions used
+        self.ghost = {}         # ghost state of a path (e.g. the set-like arrays created by pyvc.setarr)
+        self.set_theory = False  # np.sort / np.unique / np.intersect1d / np.isin modelled as set-like arrays (pyvc.setarr)
 
     def fresh(self, prefix, sort="real"):
         n = next(self.counter)
@@ -837,7 +839,14 @@ class WhereComp(object):
         self.d = d
 
     def _count(self):
-        return self.cond.count_true()
+        cond = self.cond
+        n = cond.count_true()
+        if len(cond.axes) == 1 and cond.sel is None:
+            # the count dominates the indicator at every index term already known for this axis (R3_term)
+            ax, g = cond.axes[0], cond._snapshot()
+            for t in list(CTX.axis_terms.get(id(ax), [])):
+                CTX.facts.append(z3.Implies(z3.And(t >= 0, t < ax.size.v), n.v >= Ite(bz(g((t,)).z), 1, 0)))
+        return n
 
     @property
     def shape(self):
@@ -1208,6 +1217,11 @@ def sarr_getitem(a, key):
             raise Unsupported("one component of a multi-dimensional where()")
         return _filter(a, key.cond)
     if isinstance(key, SArr) and key.dtype == "bool":
+        if getattr(a, "setinfo", None) is not None:
+            from . import setarr
+            r = setarr.drop_nan(a, key)
+            if r is not None:
+                return r
         return _filter(a, key)
     if isinstance(key, SArr) and key.dtype == "int":
         if len(a.axes) != 1 and not a.flat:
